@@ -111,6 +111,10 @@ Definition step (w : world) (o : op) : world * list obs :=
     ({| w_enc := e'; w_dec := w_dec w0; w_pk := w_pk w0; w_ob := w_ob w0; w_frames := fs; w_st := w_st w0 |},
      (if c =? 42 then [] else map (fun f => ob T_F [] [f]) fs) ++ [ob T_Q [zlen fs; e_seq e'] []])
   else if c =? 11 then (setdec w (n 0%nat) [], [])
+  else if c =? 46 then
+    (* decode(nullptr, n): returns nothing, changes nothing *)
+    let st := match aget (n 0%nat) (w_dec w) with Some s => s | None => [] end in
+    (setdec w (n 0%nat) st, [ob T_N [0; pending_count st; pending_bytes st] []])
   else if c =? 44 then
     (* Decoder copy construction: the copy gets the source's reassembly table as a value *)
     match aget (n 1%nat) (w_dec w) with Some s => (setdec w (n 0%nat) s, []) | None => (w, []) end
